@@ -5,6 +5,7 @@ package main
 import (
 	"errors"
 	"fmt"
+	"math"
 	"time"
 
 	"github.com/failsafe-go/failsafe-go/circuitbreaker"
@@ -51,6 +52,9 @@ func c04Setup(bi int, st *c04State) func(env *Env) {
 			if e.Policy != bi || e.Name != "changed" {
 				return
 			}
+			if e.Old == circuitbreaker.OpenState && e.New == circuitbreaker.HalfOpenState && e.At-st.openAt < int64(spec.BDelay) {
+				vrt.Fail(fmt.Sprintf("breaker half-opened at t=%d, %d after it opened; its delay is %v", e.At, e.At-st.openAt, spec.BDelay))
+			}
 			st.state, st.sinceTick = e.New, e.Tick
 			st.episode++
 			if e.New == circuitbreaker.OpenState {
@@ -59,7 +63,7 @@ func c04Setup(bi int, st *c04State) func(env *Env) {
 		}
 		env.OnEnter = func(x *Exe, inv *Inv) {
 			// an invocation that enters while the breaker has been open since before this execution started
-			if st.state == circuitbreaker.OpenState && x.StartTick > st.openTick && vrt.Elapsed() < st.openAt+int64(spec.BDelay) {
+			if st.state == circuitbreaker.OpenState && x.StartTick > st.openTick && vrt.Elapsed()-st.openAt < int64(spec.BDelay) {
 				vrt.Fail(fmt.Sprintf("function invoked at t=%d by an execution that started after the breaker opened (t=%d) and before its delay %v elapsed", vrt.Elapsed(), st.openAt, spec.BDelay))
 			}
 			if st.state == circuitbreaker.HalfOpenState {
@@ -96,6 +100,9 @@ func c04Final(bi int, st *c04State, bare bool) func(env *Env) string {
 		for _, e := range env.Events {
 			if e.Policy == bi && e.Name == "open" {
 				until := e.At + int64(spec.BDelay)
+				if until < e.At {
+					until = math.MaxInt64 // the delay never elapses
+				}
 				var next *Event
 				for j := range env.Events {
 					f := &env.Events[j]
@@ -139,7 +146,7 @@ func c04Final(bi int, st *c04State, bare bool) func(env *Env) string {
 				return "closed breaker refused a permit"
 			}
 		case circuitbreaker.OpenState:
-			if vrt.Elapsed() < st.openAt+int64(spec.BDelay) && cb.TryAcquirePermit() {
+			if vrt.Elapsed()-st.openAt < int64(spec.BDelay) && cb.TryAcquirePermit() {
 				return "open breaker granted a permit before its delay elapsed"
 			}
 		}
@@ -173,6 +180,7 @@ func c04Scenarios(tier string) []*Scenario {
 	// executions racing with the failure that opens the breaker
 	add("open-race", []Spec{CB(1, Long)}, 0, []ExeSpec{{Script: fail(0)}, {Script: ok(0)}, {Script: ok(0)}}, true)
 	add("open-race-dur", []Spec{CB(1, Long)}, 0, []ExeSpec{{Script: fail(10)}, {Script: ok(10)}, {Script: ok(5), StartAt: 10}}, true)
+	add("open-race-maxdelay", []Spec{CB(1, math.MaxInt64)}, 0, []ExeSpec{{Script: fail(0)}, {Script: ok(0)}, {Script: ok(0), StartAt: 10}}, true)
 	add("open-race-t2", []Spec{CB(2, Long)}, 0, []ExeSpec{{Script: fail(0)}, {Script: fail(0)}, {Script: ok(0)}}, true)
 	add("open-race-async", []Spec{CB(1, Long)}, 0, []ExeSpec{{Script: fail(0), Async: true}, {Script: ok(0), Async: true}}, true)
 	if tier == "thorough" {
@@ -215,6 +223,9 @@ func c04Scenarios(tier string) []*Scenario {
 	add("delay-boundary", []Spec{CB(1, D)}, 0, []ExeSpec{{Script: fail(0)}, {Script: ok(10), StartAt: D - 1}, {Script: ok(10), StartAt: D}, {Script: ok(10), StartAt: D}}, true)
 	add("delay-boundary-fail", []Spec{CB(1, D)}, 0, []ExeSpec{{Script: fail(0)}, {Script: fail(10), StartAt: D}, {Script: ok(10), StartAt: D}}, true)
 	// trials that end by cancellation or timeout still give their permit back
+	// a trial whose context is already cancelled when it arrives still returns its permit
+	add("trial-precancelled", []Spec{HO(1, 1)}, 0, []ExeSpec{{Script: []Out{{Err: E1, Dur: 5, Coop: true}}, Ctx: "cancel", CancelAt: 0, StartAt: 5}, {Script: ok(5), StartAt: 30}}, true)
+	add("trial-precancelled-retry", []Spec{{Kind: KRetry, MaxRetries: 1}, HO(2, 2)}, 1, []ExeSpec{{Script: []Out{{Err: E1, Dur: 5, Coop: true}}, Ctx: "cancel", CancelAt: 0, StartAt: 5}, {Script: ok(5), StartAt: 30}}, false)
 	add("trial-cancelled", []Spec{HO(1, 1)}, 0, []ExeSpec{{Script: []Out{{Err: E1, Block: true}}, Ctx: "cancel", CancelAt: 20}, {Script: ok(5), StartAt: 30}}, true)
 	add("trial-cancelled-ok", []Spec{HO(2, 2)}, 0, []ExeSpec{{Script: []Out{{V: 1, Block: true}}, Ctx: "cancel", CancelAt: 20}, {Script: ok(5), StartAt: 30}}, true)
 	add("trial-async-cancel", []Spec{HO(1, 1)}, 0, []ExeSpec{{Script: []Out{{Err: E1, Block: true}}, Async: true, CancelAsync: true, CancelAt: 20}, {Script: ok(5), StartAt: 30}}, true)
